@@ -11,6 +11,10 @@ func propOracles(e *env, op *Op, out *Outcome, i int) {
 		v := checkViolation(e.prop, c, e.t.id, i, "simulated execution")
 		e.viol = append(e.viol, v)
 	}
+	if e.prop == "C11" && op.K != "panicx" && out.Panic != "" && !hasPanickingWriter(op) {
+		e.violateX("C11", "call-panicked", fmt.Sprintf("a %s call panicked although no participant is allowed to make it: %s", op.K, out.Panic), "", out.Panic)
+		e.viol[len(e.viol)-1].Class = op.K + ":" + panicShape(out.Panic)
+	}
 	if i >= len(e.expected) {
 		return
 	}
@@ -25,4 +29,42 @@ func propOracles(e *env, op *Op, out *Outcome, i int) {
 			e.stats.Extra["ref_mismatch_seen_not_reported_by_this_check"]++
 		}
 	}
+}
+
+// hasPanickingWriter: a writer that panics legitimately takes the call
+// down with it (the property speaks of user *methods*, which are
+// contained; a panicking io.Writer is not one of them).
+func hasPanickingWriter(op *Op) bool {
+	s := &sites{}
+	s.walkOp(op)
+	for _, o := range s.ops {
+		if o.W != nil && o.W.Kind == "panic" {
+			return true
+		}
+		if o.PT != nil && o.PT.Nested {
+			return true
+		}
+		// the body of Sprintfn is not one of the contained user methods:
+		// a panic raised directly in it propagates
+		if o.K == "sprintfn" {
+			for i := range o.S {
+				if o.S[i].A == "pa" {
+					return true
+				}
+			}
+		}
+	}
+	return false
+}
+
+// panicShape drops the numbers from a panic description.
+func panicShape(s string) string {
+	var sb []byte
+	for i := 0; i < len(s) && len(sb) < 80; i++ {
+		if s[i] >= '0' && s[i] <= '9' {
+			continue
+		}
+		sb = append(sb, s[i])
+	}
+	return string(sb)
 }
